@@ -95,6 +95,11 @@ func checkRT(c rtCase, r *h.Rec) error {
 		if err := formatCheck(c.cspec, b); err != nil {
 			return fmt.Errorf("%s (key class %s): the encoding does not carry the key in its prescribed form: %v; container %s", c.label(), c.Key, err, h.Hex(b.blob))
 		}
+		if done, err := independentCheck(c.cspec, b); err != nil {
+			return fmt.Errorf("%s (key class %s): %v; container %s", c.label(), c.Key, err, h.Hex(b.blob))
+		} else if done {
+			r.Label("opened-by-independent-implementation")
+		}
 		return publicPart(c.cspec, b, got)
 	}
 	ws, ok := wrongSecret(b, c.cspec, c.Wrong)
